@@ -26,15 +26,15 @@
 (***************************************************************************)
 EXTENDS VariantFormat, FiniteSets, Json
 
-CONSTANTS ValueUniverses,      \* set of [alpha |-> set of bytes, maxlen |-> n]
+CONSTANTS ValueUniverses,      \* set of [pre |-> fixed prefix, alpha |-> set of bytes, maxlen |-> n]: pre \o (all strings over alpha) up to length maxlen
           MetaUniverses,
           Metas                \* set of metadata byte strings used in mode "value"
 
 VARIABLES mode, u, m, v
 vars == <<mode, u, m, v>>
 
-Init == \/ mode = "value" /\ u \in ValueUniverses /\ m \in Metas /\ v = <<>>
-        \/ mode = "meta" /\ u \in MetaUniverses /\ m = <<>> /\ v = <<0>>
+Init == \/ mode = "value" /\ u \in ValueUniverses /\ m \in Metas /\ v = u.pre
+        \/ mode = "meta" /\ u \in MetaUniverses /\ m = u.pre /\ v = <<0>>
 
 GrowValue == /\ mode = "value" /\ Len(v) < u.maxlen
              /\ \E b \in u.alpha : v' = Append(v, b)
@@ -101,10 +101,10 @@ RECURSIVE SeqOfSeqs(_)
 SeqOfSeqs(S) == IF S = {} THEN <<>> ELSE LET x == CHOOSE y \in S : TRUE IN <<x>> \o SeqOfSeqs(S \ {x})
 
 Emit ==
-  /\ (mode = "value" /\ v = <<>>) =>
-       PrintT("CASE " \o ToJson([k |-> "uv", alpha |-> SetToSeq(u.alpha), maxlen |-> u.maxlen, m |-> m]))
-  /\ (mode = "meta" /\ m = <<>>) =>
-       PrintT("CASE " \o ToJson([k |-> "um", alpha |-> SetToSeq(u.alpha), maxlen |-> u.maxlen]))
+  /\ (mode = "value" /\ v = u.pre) =>
+       PrintT("CASE " \o ToJson([k |-> "uv", pre |-> u.pre, alpha |-> SetToSeq(u.alpha), maxlen |-> u.maxlen, m |-> m]))
+  /\ (mode = "meta" /\ m = u.pre) =>
+       PrintT("CASE " \o ToJson([k |-> "um", pre |-> u.pre, alpha |-> SetToSeq(u.alpha), maxlen |-> u.maxlen]))
   /\ (mode = "value" /\ Tight(m, v)) =>
        PrintT("CASE " \o ToJson([k |-> "v", m |-> m, v |-> v, tok |-> Decode(m, v)]))
   /\ (mode = "meta" /\ MetaValid(m) /\ MetaSize(m) = Len(m)) =>
@@ -119,13 +119,15 @@ MetasStd == { <<1, 0, 0>>,                    \* empty dictionary
 
 MetasQuick == { <<1, 0, 0>>, <<17, 2, 0, 1, 2, 97, 98>>, <<1, 2, 0, 1, 2, 97, 97>> }
 
-VU_quick == { [alpha |-> {0, 1, 2, 3, 5, 12, 97, 195}, maxlen |-> 4],
-              [alpha |-> {0, 1, 2, 3}, maxlen |-> 7] }
-MU_quick == { [alpha |-> {0, 1, 2, 195, 169}, maxlen |-> 7],
-              [alpha |-> {0, 1, 2, 17, 97, 98}, maxlen |-> 5] }
+VU_quick == { [pre |-> <<>>, alpha |-> {0, 1, 2, 3, 5, 12, 97, 195}, maxlen |-> 4],
+              [pre |-> <<>>, alpha |-> {0, 1, 2, 3}, maxlen |-> 7] }
+MU_quick == { [pre |-> <<1>>, alpha |-> {0, 1, 2, 195, 169}, maxlen |-> 7],      \* version 1, unsorted, 1-byte offsets
+              [pre |-> <<>>, alpha |-> {0, 1, 2, 17, 97, 98}, maxlen |-> 5] }
 
-VU_thorough == { [alpha |-> {0, 1, 2, 3, 5, 9, 12, 19, 97, 169, 195}, maxlen |-> 6],
-                 [alpha |-> {0, 1, 2, 3}, maxlen |-> 10] }
-MU_thorough == { [alpha |-> {0, 1, 2, 195, 169}, maxlen |-> 8],
-                 [alpha |-> {0, 1, 2, 17, 65, 97, 98, 195}, maxlen |-> 6] }
+VU_thorough == { [pre |-> <<>>, alpha |-> {0, 1, 2, 3, 5, 9, 12, 97, 169, 195}, maxlen |-> 5],
+                 [pre |-> <<>>, alpha |-> {0, 1, 2, 3}, maxlen |-> 8],
+                 [pre |-> <<2>>, alpha |-> {0, 1, 2, 3, 12}, maxlen |-> 9] }   \* objects (a two-field object needs 9 bytes)
+MU_thorough == { [pre |-> <<1>>, alpha |-> {0, 1, 2, 195, 169}, maxlen |-> 9],
+                 [pre |-> <<17>>, alpha |-> {0, 1, 2, 97, 98, 195, 169}, maxlen |-> 7],    \* sorted
+                 [pre |-> <<>>, alpha |-> {0, 1, 2, 17, 65, 97, 98, 195}, maxlen |-> 6] }
 =============================================================================
